@@ -21,7 +21,7 @@ Directives (lines starting with `//@`):
   //@end
   //@closure <src> <selector> name=<closure> as=<oblig>        `let name = |..| body` lifted to a fn (R4 L)
   //@loopbody <src> <selector> loop=<n> as=<oblig>             body of the n-th loop as a fn (R4 B)
-  //@vacuity <oblig>            emit the vacuity twin of an earlier //@fn block (same text, `ensures false`)
+  (vacuity twins -- same text, same requires, `ensures false` -- are generated automatically, see Gen.twins)
 
 <selector> is `[ctx-substring::]fnname[#k]` where ctx-substring is matched
 whitespace-insensitively against the enclosing impl/trait/mod headers.
@@ -37,15 +37,15 @@ class LostAnchor(Exception):
 
 
 class Gen:
-    def __init__(self, repo, expanded_path=None):
+    def __init__(self, repo, expanded_path=None, twins='none'):
         self.repo = repo
+        self.twins = twins   # none | req | all
         self.expanded_path = expanded_path
         self.sources = {}
         self.out = []          # lines
         self.map = []          # per line: dict(kind, file, line, block)
         self.blocks = {}       # oblig id -> dict(kind, src, line_lo, line_hi, fn, gen_lo, gen_hi)
         self.cur_block = None
-        self.fn_texts = {}     # oblig -> (header_lines, body_lines) for vacuity twins
         self.drops = set()
 
     # ---------------------------------------------------------------- sources
@@ -152,9 +152,6 @@ class Gen:
                     raise LostAnchor('%s:%d: missing //@end' % (spec_rel, i + 1))
                 getattr(self, 'do_' + d)(parts[1:], block, 'specs/' + spec_rel, i + 1)
                 i = j + 1
-            elif d == 'vacuity':
-                self.do_vacuity(parts[1], 'specs/' + spec_rel, i + 1)
-                i += 1
             else:
                 raise LostAnchor('%s:%d: unknown directive %s' % (spec_rel, i + 1, d))
 
@@ -329,9 +326,45 @@ class Gen:
                               'gen_lo': len(self.out) + 1,
                               'sha': hashlib.sha256(src.text[src.toks[lo_tok].start:src.toks[hi_tok].end].encode()).hexdigest()[:16]}
 
-    def end_block(self):
-        self.blocks[self.cur_block]['gen_hi'] = len(self.out)
+    def end_block(self, contract_lo=None, contract_hi=None, twin_ok=True):
+        b = self.blocks[self.cur_block]
+        oblig = self.cur_block
+        b['gen_hi'] = len(self.out)
         self.cur_block = None
+        if contract_lo is None or not twin_ok or self.twins == 'none':
+            return
+        contract = '\n'.join(self.out[contract_lo:contract_hi])
+        has_req = re.search(r'^\s*requires\b', contract, re.M) is not None
+        if self.twins == 'req' and not has_req:
+            return
+        self.make_twin(oblig, b['gen_lo'] - 1, contract_lo, contract_hi, b['gen_hi'])
+
+    def make_twin(self, oblig, lo, c_lo, c_hi, hi):
+        tw = 'VACUITY.' + oblig
+        self.blocks[tw] = dict(self.blocks[oblig], kind='vacuity-twin', gen_lo=len(self.out) + 1, of=oblig)
+        lines = list(self.out[lo:hi])
+        maps = [dict(m, block=tw) for m in self.map[lo:hi]]
+        renamed = False
+        for k in range(0, c_hi - lo):
+            m = re.search(r'\bfn\s+(\w+)', lines[k])
+            if m:
+                lines[k] = lines[k][:m.start(1)] + m.group(1) + '__vacuity_twin' + lines[k][m.end(1):]
+                renamed = True
+                break
+        if not renamed:
+            raise LostAnchor('cannot name vacuity twin of ' + oblig)
+        pre, con, post = lines[:c_lo - lo], lines[c_lo - lo:c_hi - lo], lines[c_hi - lo:]
+        mpre, mcon, mpost = maps[:c_lo - lo], maps[c_lo - lo:c_hi - lo], maps[c_hi - lo:]
+        kept = strip_ensures('\n'.join(con)).split('\n') if con else []
+        spec_map = (mcon[0] if mcon else maps[0])
+        self.out += pre
+        self.map += mpre
+        for l in kept + ['    ensures false,']:
+            self.out.append(l)
+            self.map.append(dict(spec_map, kind='spec', block=tw))
+        self.out += post
+        self.map += mpost
+        self.blocks[tw]['gen_hi'] = len(self.out)
 
     def do_fn(self, parts, block, specfile, specline):
         pos, kw = self.kv(parts)
@@ -358,37 +391,7 @@ class Gen:
         contract_end = len(self.out)
         segs = self.body_with_insertions(src, it.body_open, it.end, loops, proofs, rel)
         self.emit_segs(segs, rel)
-        self.fn_texts[oblig] = (start_out, hdr_end, contract_end, len(self.out), contract)
-        self.end_block()
-
-    def do_vacuity(self, oblig, specfile, specline):
-        if oblig not in self.fn_texts:
-            raise LostAnchor('vacuity twin of unknown block ' + oblig)
-        a, b, c, d, contract = self.fn_texts[oblig]
-        tw = 'VACUITY.' + oblig
-        self.cur_block = tw
-        self.blocks[tw] = dict(self.blocks[oblig], kind='vacuity-twin', gen_lo=len(self.out) + 1, of=oblig)
-        hdr = self.out[a:b]
-        hdr_map = self.map[a:b]
-        # rename the function: first `fn NAME` in header
-        hdr = list(hdr)
-        for k, l in enumerate(hdr):
-            m = re.search(r'\bfn\s+(\w+)', l)
-            if m:
-                hdr[k] = l[:m.start(1)] + m.group(1) + '__vacuity_twin' + l[m.end(1):]
-                break
-        for l, mp in zip(hdr, hdr_map):
-            self.out.append(l)
-            self.map.append(dict(mp, block=tw))
-        # contract without ensures, then `ensures false`
-        req = strip_ensures(contract)
-        if req.strip():
-            self.emit(req, 'spec', specfile, specline, False)
-        self.emit('    ensures false,', 'spec', specfile, specline, False)
-        for l, mp in zip(self.out[c:d], self.map[c:d]):
-            self.out.append(l)
-            self.map.append(dict(mp, block=tw))
-        self.end_block()
+        self.end_block(hdr_end, contract_end, twin_ok=not in_trait)
 
     # .................................................................. arm
     def locate_match(self, src, it, kw):
@@ -416,13 +419,15 @@ class Gen:
         header, loops, proofs = self.parse_block(block)
         self.begin_block(oblig, 'arm', rel, src, arm.pat_tok, arm.body_hi, selector + ' arm ' + kw['pat'])
         header = header.replace('$PAT', arm.pat).replace('$GUARD', arm.guard or 'true')
+        c_lo = len(self.out)
         self.emit(header, 'spec', specfile, specline + 1)
+        c_hi = len(self.out)
         pre = kw.get('pre', '')
         self.emit('{' + pre, 'spec', specfile, specline, False)
         segs = self.body_with_insertions(src, arm.body_lo, arm.body_hi, loops, proofs, rel)
         self.emit_segs(segs, rel)
         self.emit('}', 'spec', specfile, specline, False)
-        self.end_block()
+        self.end_block(c_lo, c_hi)
 
     def do_closure(self, parts, block, specfile, specline):
         pos, kw = self.kv(parts)
@@ -436,7 +441,9 @@ class Gen:
         header, loops, proofs = self.parse_block(block)
         self.begin_block(oblig, 'closure', rel, src, let_tok, end_tok, selector + ' closure ' + kw['name'])
         header = header.replace('$PARAMS', params)
+        c_lo = len(self.out)
         self.emit(header, 'spec', specfile, specline + 1)
+        c_hi = len(self.out)
         braced = src.is_p(b_lo, '{')
         if not braced:
             self.emit('{', 'spec', specfile, specline, False)
@@ -444,7 +451,7 @@ class Gen:
         self.emit_segs(segs, rel)
         if not braced:
             self.emit('}', 'spec', specfile, specline, False)
-        self.end_block()
+        self.end_block(c_lo, c_hi)
 
     def do_loopbody(self, parts, block, specfile, specline):
         pos, kw = self.kv(parts)
@@ -460,10 +467,12 @@ class Gen:
         oblig = kw['as']
         header, lins, proofs = self.parse_block(block)
         self.begin_block(oblig, 'loopbody', rel, src, kwtok, src.match[bopen], selector + ' loop %d' % n)
+        c_lo = len(self.out)
         self.emit(header.replace('$HDR', hdr), 'spec', specfile, specline + 1)
+        c_hi = len(self.out)
         segs = self.body_with_insertions(src, bopen, src.match[bopen], lins, proofs, rel)
         self.emit_segs(segs, rel)
-        self.end_block()
+        self.end_block(c_lo, c_hi)
 
     # ---------------------------------------------------------------- output
     def write(self, path):
